@@ -427,6 +427,19 @@ void World::opProbe(const Item& op)
             fault("set-field");
         }
     }
+    if (op.has("ilen2"))
+    {
+        size_t off;
+        int width;
+        if (innerLenField(kind, body.data(), body.size(), static_cast<int>(op.get("iwhich2", 1)), off, width) && off + width <= body.size())
+        {
+            if (width == 1)
+                body[off] = static_cast<uint8_t>(op.get("ilen2"));
+            else
+                wire::wr16(body.data() + off, static_cast<uint16_t>(op.get("ilen2")));
+            fault("set-field");
+        }
+    }
     if (op.has("cut"))
     {
         size_t k = static_cast<size_t>(std::max<int64_t>(0, op.get("cut")));
